@@ -104,7 +104,7 @@ void h_absorb(void) {
     CHECK(mi_page_heap(&PA[i]) == &B, "C10: migrated pages are attributed to the backing heap");
     CHECK(in_queue(a_full[i] ? &B.pages[MI_BIN_FULL] : &B.pages[BIN], &PA[i]), "C10: a page stays in its kind of queue (size queue / full queue) after migration");
     CHECK((bool)PA[i].flags.x.has_aligned == a_aligned[i], "C03: has_aligned survives the migration");
-    CHECK(mi_page_thread_free_flag(&PA[i]) != MI_DELAYED_FREEING, "no page is left in the delayed-freeing state");
+    CHECK(mi_page_thread_free_flag(&PA[i]) == MI_USE_DELAYED_FREE, "C10: every migrated page went through the delayed-free hand-shake (flag re-set to USE_DELAYED_FREE, which waits out in-flight remote frees that still hold the old heap)");
   }
   for (int i = 0; i < 2; i++) if (b_has[i]) CHECK(mi_page_heap(&PB[i]) == &B && in_queue(i == 1 ? &B.pages[MI_BIN_FULL] : &B.pages[BIN], &PB[i]), "pages of the backing heap stay");
   CHECK(A.pages[BIN].first == NULL && A.pages[MI_BIN_FULL].first == NULL, "the deleted heap holds no pages afterwards");
@@ -154,6 +154,51 @@ void h_heap_by_tag(void) {
   mi_heap_t* r = _mi_heap_by_tag(&H[from], tag);
   if (r != NULL) { CHECK(r->tag == tag, "the chosen heap has the requested tag"); CHECK(!r->no_reclaim, "C10: reclaimed pages never go to a destroyable (no_reclaim) heap, so mi_heap_destroy cannot free blocks of other threads"); WITNESS("found"); }
   if (tag == 0) CHECK(r != NULL, "tag 0 always has the backing heap");
+  WITNESS("end");
+}
+#endif
+
+#ifdef HARNESS_h_heap_new
+/* C10: the descriptor of a new heap is a block of the thread's BACKING heap (never of whatever heap happens to be the
+   default), so destroying another heap can not free it */
+static mi_heap_t NEWH; static mi_heap_t* malloc_from; static int n_hmalloc;
+void* stub_heap_malloc(mi_heap_t* heap, size_t size) { n_hmalloc++; malloc_from = heap; CHECK(size == sizeof(mi_heap_t), "descriptor size"); return nd_bool() ? NULL : &NEWH; }
+void* stub_malloc_default(size_t size) { n_hmalloc++; malloc_from = _mi_heap_default; return nd_bool() ? NULL : &NEWH; }   /* an allocation from the current default heap */
+mi_heap_t* stub_heap_get_default(void) { return &A; }                 /* the current default heap is NOT the backing heap */
+void _mi_random_init(mi_random_ctx_t* ctx) { }
+void _mi_random_split(mi_random_ctx_t* ctx, mi_random_ctx_t* new_ctx) { }
+uintptr_t _mi_random_next(mi_random_ctx_t* ctx) { return nd_u64(); }
+mi_arena_id_t _mi_arena_id_none(void) { return 0; }
+void h_heap_new(void) {
+  make_heaps();
+  _mi_heap_default = &A;
+  mi_heap_t* h = nd_bool() ? mi_heap_new() : mi_heap_new_in_arena((mi_arena_id_t)(nd_u8() % 3));
+  CHECK(n_hmalloc == 1 && malloc_from == &B, "C10: the heap descriptor is allocated in the backing heap");
+  if (h != NULL) { CHECK(h == &NEWH && h->tld == &TLD && TLD.heaps == h, "new heap initialised and registered with the thread"); CHECK(h->page_count == 0, "a new heap owns no pages"); WITNESS("created"); }
+  else WITNESS("failed");
+}
+#endif
+
+#ifdef HARNESS_h_collect_abandon
+/* C09/C08: thread exit (collect with MI_ABANDON): every page is first marked NEVER_DELAYED_FREE, only then the heap's delayed
+   list is drained -- so no remote free can be parked on the dying heap's list after the last drain */
+static int n_drain2; static bool all_never_at_drain;
+void stub_delayed_free_all_check(mi_heap_t* h) {
+  n_drain2++; all_never_at_drain = true;
+  for (int i = 0; i < NP; i++) if (mi_page_thread_free_flag(&PA[i]) != MI_NEVER_DELAYED_FREE) all_never_at_drain = false;
+}
+static int n_pages_collected;
+bool stub_heap_page_collect(mi_heap_t* heap, mi_page_queue_t* pq, mi_page_t* page, void* arg_collect, void* arg2) { n_pages_collected++; CHECK(n_drain2 >= 1, "pages are abandoned only after the delayed list was drained"); return true; }
+void _mi_abandoned_reclaim_all(mi_heap_t* heap, mi_segments_tld_t* tld) { }
+void _mi_abandoned_collect(mi_heap_t* heap, bool force, mi_segments_tld_t* tld) { }
+
+void _mi_arenas_collect(bool force_purge) { }
+void mi_stats_merge(void) mi_attr_noexcept { }
+void h_collect_abandon(void) {
+  make_heaps();
+  _mi_heap_collect_abandon(&A);
+  CHECK(n_drain2 >= 1 && all_never_at_drain, "C09: at the (last) drain of the exiting thread's delayed list every page is already NEVER_DELAYED_FREE");
+  CHECK(n_pages_collected == NP, "every page of the heap is visited for abandonment");
   WITNESS("end");
 }
 #endif
